@@ -93,6 +93,9 @@ func envOr(k, d string) string {
 var propDeps = map[string][]string{}
 
 func hasProp(ps []string, p string) bool {
+	if p == "ALL" { // pseudo-property used by the self-test: every obligation of every property, once
+		return true
+	}
 	deps := propClosure(p)
 	for _, x := range ps {
 		if deps[x] {
